@@ -31,6 +31,14 @@ RelConforms(e) ==
     /\ RelOk(e.fam, e.a, e.b, e.r)
     /\ e.a_after = e.a /\ e.b_after = e.b
 
+(* the last segment of "data:text/plain," followed by n copies of "%C3%A9" is "plain," and the *)
+(* escapes: 2n + 6 octets, n + 6 characters (C19)                                              *)
+BigPctConforms(e) ==
+    /\ e.panic = FALSE
+    /\ e.resolved_unchanged
+    /\ e.bytes = 2 * e.n + 6 /\ e.direct_bytes = e.bytes
+    /\ e.chars = e.n + 6 /\ e.len = e.chars /\ e.decoded = e.chars
+
 (* ---- suffix (C16) ---- *)
 SuffixConforms(e) ==
     /\ e.panic = FALSE
@@ -46,7 +54,7 @@ SuffixConforms(e) ==
 (* ---- previous text (C04, C05, C06, C10, C11)                                    *)
 EditConforms(e) ==
     /\ e.panic = FALSE
-    /\ InLang(RefType(e.fam, IF e.op = "resolve" THEN "full" ELSE e.kind), e.post)
+    /\ InLang(EditType(e.fam, IF e.op = "resolve" THEN "full" ELSE e.kind), e.post)
     /\ e.post \in EditApply(e.fam, e.kind, e.pre, [op |-> e.op, arg |-> e.arg])
 
 (* ---- construction: verdict and components of random texts (C01, C02) ---- *)
@@ -54,6 +62,15 @@ ParseConforms(e) ==
     /\ e.panic = FALSE
     /\ e.ok = InLang(e.ty, e.w)
     /\ e.ok => e.p = Parts(e.w)
+(* ---- authorities drawn from character classes (C03): verdict, and the three ways of  *)
+(* ---- reading user info, host and port (accessors, all-at-once, inside a reference)   *)
+AuthConforms(e) ==
+    LET ty == IF e.fam = "uri" THEN "UAuthority" ELSE "IAuthority"
+    IN  /\ e.panic = FALSE
+        /\ e.ok = InLang(ty, e.w)
+        /\ e.ok => /\ e.v.acc = AuthParts(e.w)
+                    /\ e.v.parts = AuthParts(e.w)
+                    /\ e.v.emb = AuthParts(e.w)
 (* ---- construction from bytes: the UTF-8 gate (C01, C14) ---- *)
 ParseBytesConforms(e) ==
     /\ e.panic = FALSE
@@ -81,8 +98,10 @@ Conforms(e) ==
     CASE e.ev = "rel"    -> RelConforms(e)
       [] e.ev = "big_path" -> BigPathConforms(e)
       [] e.ev = "big_ref"  -> BigRefConforms(e)
+      [] e.ev = "big_pct"  -> BigPctConforms(e)
       [] e.ev = "parse"  -> ParseConforms(e)
       [] e.ev = "parse_bytes" -> ParseBytesConforms(e)
+      [] e.ev = "auth"   -> AuthConforms(e)
       [] e.ev = "edit"   -> EditConforms(e)
       [] e.ev = "suffix" -> SuffixConforms(e)
       [] OTHER -> FALSE
@@ -91,7 +110,8 @@ Conforms(e) ==
 (* unexpected (but well-formed) result                                                  *)
 Why(e) ==
     IF e.panic THEN "panic"
-    ELSE IF e.ev = "edit" /\ ~InLang(RefType(e.fam, IF e.op = "resolve" THEN "full" ELSE e.kind), e.post) THEN "invalid"
+    ELSE IF e.ev = "auth" /\ e.ok # InLang(IF e.fam = "uri" THEN "UAuthority" ELSE "IAuthority", e.w) THEN "verdict"
+    ELSE IF e.ev = "edit" /\ ~InLang(EditType(e.fam, IF e.op = "resolve" THEN "full" ELSE e.kind), e.post) THEN "invalid"
     ELSE "unexpected"
 
 (* what the specification admits, for the report *)
